@@ -89,12 +89,9 @@ pub fn gen_query(rng: &mut Rng) -> Value {
       "functions": [{"type": "field_value_factor", "field": "s0", "factor": 1.0}], "boost_mode": "replace"}),
     3 => json!({"type": "match_all"}),
     4 | 5 => json!({"type": "term", "field": "body", "value": WORDS[skew(rng, 4)]}),
-    6 => {
-      // two *different* words (a repeated word trips a debug assertion in the planner — C16's business)
-      let a = skew(rng, 4);
-      let b = (a + 1 + rng.below(WORDS.len() - 1)) % WORDS.len();
-      json!({"type": "query_string", "query": format!("{} {}", WORDS[a], WORDS[b])})
-    }
+    // (since /repo 458e503 a repeated word in a query string no longer trips the planner's
+    // "inconsistent leaf" assertion, so both words are drawn independently)
+    6 => json!({"type": "query_string", "query": format!("{} {}", WORDS[skew(rng, 4)], WORDS[skew(rng, WORDS.len())])}),
     _ => json!({"type": "function_score", "query": {"type": "term", "field": "body", "value": WORDS[skew(rng, 3)]},
       "functions": [{"type": "field_value_factor", "field": "s0", "factor": 1.0}], "boost_mode": "sum"}),
   }
@@ -567,9 +564,9 @@ pub fn bt<T: Clone>(m: &BTreeMap<String, T>) -> Vec<String> {
   m.keys().cloned().collect()
 }
 
-/// `max(limit, candidate_size) + 1`
+/// `max(limit, candidate_size, rescore.window_size) + 1` (the window counts since /repo 089be57)
 pub fn top_k_of(req: &Value) -> usize {
-  req["candidate_size"].as_u64().unwrap_or(0).max(req["limit"].as_u64().unwrap_or(0)).min(20000) as usize + 1
+  req["candidate_size"].as_u64().unwrap_or(0).max(req["limit"].as_u64().unwrap_or(0)).max(req["rescore"]["window_size"].as_u64().unwrap_or(0)).min(20000) as usize + 1
 }
 
 /// ids of the hits that exist after the segment loop for this request, derived from the full
